@@ -181,7 +181,9 @@ def unquote_letters(string):
 # NOTE: "%" must stay escaped else the result could be unquoted a second time,
 # and every character delimiting the component (or an enclosing one) must
 # stay escaped else the url would not parse the same way anymore.
-UNSAFE_FOR_AUTH_ITEM = b" @:/?#%"
+# NOTE: brackets delimit an ipv6 literal in the authority: a raw one in the
+# userinfo makes the whole url unparseable
+UNSAFE_FOR_AUTH_ITEM = b" @:/?#%[]"
 # NOTE: only the first "=" of a query item is a delimiter, so it is harmless
 # within a query value
 UNSAFE_FOR_QUERY_VALUE = b" &#%"
